@@ -945,6 +945,7 @@ func verifScenarios() []verifCase {
 		{label: "empty files", ents: []verifEnt{r("f", 0), r("g", 0), r("h", 5)}, prio: []string{"g"}},
 		{label: "only empty prioritized", ents: []verifEnt{r("f", 50), r("g", 0), r("h", 50), r("k", 50)}, prio: []string{"g"}},
 		{label: "big neighbours", ents: []verifEnt{r("f", 500), r("g", 400), r("h", 300), r("k", 200)}, prio: []string{"h", "f"}},
+		{label: "rest not in name order", ents: []verifEnt{r("z", 4), d("y/"), r("y/x", 9), r("b", 5), r("a", 6), r("./m", 2)}, prio: []string{"b"}},
 		{label: "symlink and fifo", ents: []verifEnt{{typ: 's', name: "s", link: "f"}, {typ: 'o', name: "p"}, r("f", 10)}, prio: []string{"s", "p"}},
 	}
 }
